@@ -14,6 +14,6 @@ Clause(t) ==
 Init == tid \in 1..Len(Traces) /\ done = FALSE
 Judge == /\ ~done /\ done' = TRUE /\ UNCHANGED tid
          /\ LET t == Traces[tid] IN
-              PrintT("VERDICT " \o ToJson([id |-> t.id, clause |-> Clause(t), locus |-> [pos |-> t.pos, culprit |-> t.culprit]]))
+              PrintT("VERDICT " \o ToJson([id |-> t.id, clause |-> Clause(t), locus |-> [pos |-> t.pos, culprit |-> t.culprit, where |-> t.where, run |-> t.run]]))
 Spec == Init /\ [][Judge]_<<tid, done>>
 =============================================================================
